@@ -1,9 +1,9 @@
 package enga
 
 import (
-	"os"
 	"fmt"
 	"math/rand/v2"
+	"os"
 	"regexp"
 	"sort"
 	"strconv"
